@@ -1,4 +1,6 @@
 """C02 - time/frequency transforms are exact inverses on the sampling-rate FFT grid."""
+import os
+
 import numpy as np
 from hypothesis import strategies as st
 from numpy.fft import fft, ifft, fftfreq, fftshift, ifftshift
@@ -17,8 +19,10 @@ ASSUMPTIONS = ["numpy.fft is the reference DFT", "tolerance 1e-9*max(1,max|ref|)
 @st.composite
 def s_case(draw):
     big = draw(st.integers(0, 9)) == 0
-    n = draw(st.sampled_from([2048, 4096, 4095, 2047, 8191])) if big else draw(st.one_of(st.sampled_from(LENGTHS), st.integers(1, 300)))
-    x = draw(s_signal(n=n, fams=["gauss", "unif", "smallint", "spike", "const", "lead0"]))
+    huge = draw(st.integers(0, 59 if os.environ.get("VF_TIER") == "thorough" else 499)) == 0
+    n = draw(st.sampled_from([131072, 100003, 2 ** 17 + 1])) if huge else \
+        draw(st.sampled_from([2048, 4096, 4095, 2047, 8191])) if big else draw(st.one_of(st.sampled_from(LENGTHS), st.integers(1, 300)))
+    x = draw(s_signal(n=n, fams=["gauss", "unif", "smallint", "spike", "const", "lead0", "alt", "periodic", "sorted", "sym"]))
     # units: amplitudes over 18 decades; "weakq": an O(1) real waveform with a quadrature component of 1e-12..1e-6
     x["scale"] = draw(st.sampled_from([1.0, 1.0, 1e-3, 1e-9, 1e-12, 1e6]))
     x["weakq"] = draw(st.sampled_from([0.0, 0.0, 1e-12, 1e-9, 1e-7]))
@@ -119,7 +123,7 @@ def e_case(c):
     g.release()
     nt = (N >= 3 and N % 2 == 1) or (m.npol == 2 and m.n is not None) or fs != 16e9
     return {"nontrivial": bool(nt), "classes": [c["x"]["cls"] + str(m.npol), "odd" if N % 2 else "even", "N1" if N == 1 else "N2" if N == 2 else "N>2",
-                                                 "noise" if m.n is not None else "clean", c["gv"]["form"], "big" if N > 1000 else "small", c["x"]["sig"]["dt"], f"scale{sc:g}", "weakq" if wq else "plain"]}
+                                                 "noise" if m.n is not None else "clean", c["gv"]["form"], "huge" if N > 50000 else "big" if N > 1000 else "small", c["x"]["sig"]["dt"], f"scale{sc:g}", "weakq" if wq else "plain"]}
 
 
 PARTS = [Part("transforms", e_case, s_case(), quick=1500, thorough=30000, shards=16, quick_shards=2, rule=RULE[-120:])]
